@@ -113,3 +113,129 @@ def conv_formula(lam, P, b):
     for d in range(P.shape[1]):
         f.append(z3.Sum([lift(lam[c]) * lift(P[c, d]) for c in range(P.shape[0])]) == lift(b[d]))
     return z3.And(f)
+
+
+class ConvexHullStub:
+    """scipy.spatial.ConvexHull contract: `.equations` rows (n, o) with |n| = 1 and n.p + o <= 0 for every input point (each facet is a supporting
+    half-space); conv(points) = {x : N x + o <= 0} is available to the harness as an explicit instance (QHULL_CALLS records the call);
+    `.vertices` = all point indices (a superset of the true vertices has the same hull); `.volume` an opaque positive symbol.
+    The number of facets is fixed by the case (policy 'nfacets')."""
+
+    def __init__(self, points, qhull_options=None, **kw):
+        P = np.asarray(points)
+        if P.ndim != 2:
+            raise ValueError("Input points array must have 2 dimensions.")
+        if P.shape[1] < 2:
+            raise ValueError("Need at least 2-D data")
+        if not QHULL_POLICY["fulldim"](P):
+            raise QhullError("QH6154 Qhull precision error: Initial simplex is flat (stub: cloud not full-dimensional)")
+        e = E()
+        dim = P.shape[1]
+        if P.dtype == object and all(z3.is_rational_value(z3.simplify(lift(v))) or z3.is_algebraic_value(z3.simplify(lift(v))) for v in P.ravel()) \
+                and QHULL_POLICY.get("concrete_passthrough", True):
+            # concrete cloud: the real qhull runs on its float64 image; facets enter as the exact rationals of the floats it returns
+            from scipy.spatial import ConvexHull as RealHull
+            Pf = np.array([[float(symnp.model_value(z3.Model(), lift(v)) if False else _const_float(v)) for v in row] for row in P])
+            real = RealHull(Pf)
+            self.points = P.view(SymArray)
+            self.equations = symnp.const(real.equations)
+            self.vertices = real.vertices
+            self.volume = symnp.const(real.volume)
+            self._simplices = real.simplices
+            QHULL_CALLS.append(dict(kind="convexhull-concrete", P=self.points, equations=self.equations))
+            return
+        nf = QHULL_POLICY.get("nfacets", lambda d: d + 1)(dim)
+        k = len(QHULL_CALLS)
+        eq = np.empty((nf, dim + 1), dtype=object)
+        for f in range(nf):
+            for d in range(dim + 1):
+                eq[f, d] = S(z3.Real(f"facet!{k}_{f}_{d}"))
+            e.assume(z3.Sum([eq[f, d].t * eq[f, d].t for d in range(dim)]) == 1)
+            for p in P:
+                e.assume(z3.Sum([eq[f, d].t * lift(p[d]) for d in range(dim)]) + eq[f, dim].t <= 0)
+        self.points = P.view(SymArray) if P.dtype == object else P
+        self.equations = eq.view(SymArray)
+        self.vertices = np.arange(P.shape[0])
+        self.volume = S(z3.Real(f"hullvolume!{k}"))
+        e.assume(self.volume.t > 0)
+        QHULL_CALLS.append(dict(kind="convexhull", P=self.points, equations=self.equations))
+
+    @property
+    def simplices(self):
+        if getattr(self, "_simplices", None) is not None:
+            return self._simplices
+        raise symnp.Inconclusive("ConvexHull.simplices is not modelled")
+
+
+def _const_float(v):
+    t = z3.simplify(lift(v))
+    if z3.is_rational_value(t):
+        return t.numerator_as_long() / t.denominator_as_long()
+    a = t.approx(30)
+    return a.numerator_as_long() / a.denominator_as_long()
+
+
+# ----------------------------------------------------------------------------- scipy.interpolate.interp1d
+
+INTERP_CALLS = []
+
+
+def _sorted_perm(x):
+    """indices sorting x ascending (insertion sort deciding comparisons by forking; with monotone domains only one order is feasible)"""
+    idx = list(range(len(x)))
+    for i in range(1, len(idx)):
+        j = i
+        while j > 0 and bool(x[idx[j - 1]] > x[idx[j]]):
+            idx[j - 1], idx[j] = idx[j], idx[j - 1]
+            j -= 1
+    return idx
+
+
+class Interp1dStub:
+    """scipy.interpolate.interp1d(x, y, kind='linear', axis, fill_value, bounds_error): sorts x (and y along axis), piecewise-linear inside
+    [x_min, x_max], `fill_value` outside (ValueError if bounds_error).  The call arguments are recorded."""
+
+    def __init__(self, x, y, kind="linear", axis=-1, copy=True, bounds_error=None, fill_value=np.nan, assume_sorted=False):
+        if kind != "linear":
+            raise symnp.Inconclusive("interp1d stub: only linear interpolation is modelled")
+        x = np.asarray(x); y = np.asarray(y)
+        if x.ndim != 1:
+            raise ValueError("the x array must have exactly one dimension.")
+        if y.shape[axis] != x.shape[0]:
+            raise ValueError("x and y arrays must be equal in length along interpolation axis.")
+        self.rec = dict(x=x, y=y, axis=axis, fill_value=fill_value, bounds_error=bounds_error, queries=[])
+        INTERP_CALLS.append(self.rec)
+        perm = list(range(len(x))) if assume_sorted else _sorted_perm(list(x))
+        self.x = [x[i] for i in perm]
+        self.y = np.take(np.moveaxis(np.asarray(y, dtype=object), axis, -1), perm, axis=-1)
+        self.axis = axis
+        self.fill = fill_value
+        self.bounds_error = bool(bounds_error) if bounds_error is not None else (fill_value is np.nan)
+
+    def __call__(self, xnew):
+        xnew = np.asarray(xnew)
+        if xnew.ndim != 1:
+            raise symnp.Inconclusive("interp1d stub: 1-D query only")
+        self.rec["queries"].append(xnew)
+        xs = self.x
+        out = np.empty(self.y.shape[:-1] + (len(xnew),), dtype=object)
+        for q, xq in enumerate(xnew):
+            xq = xq if isinstance(xq, S) else S(lift(xq))
+            inside = (xq >= xs[0]) & (xq <= xs[-1])
+            if self.bounds_error and not bool(inside):
+                raise ValueError("A value in x_new is out of the interpolation range.")
+            for idx in np.ndindex(*self.y.shape[:-1]):
+                yy = self.y[idx]
+                val = lift(self.fill)
+                # last segment first so that the If-chain prefers the lowest matching segment like searchsorted
+                for k in range(len(xs) - 2, -1, -1):
+                    x0, x1 = lift(xs[k]), lift(xs[k + 1])
+                    seg = lift(yy[k]) + (lift(yy[k + 1]) - lift(yy[k])) * (xq.t - x0) / (x1 - x0)
+                    val = z3.If(z3.And(xq.t >= x0, xq.t <= x1), seg, val)
+                out[idx + (q,)] = S(z3.simplify(val))
+        return np.moveaxis(out, -1, self.axis).view(SymArray)
+
+
+def interp_patches():
+    m = importlib.import_module("dreye.api.domain")
+    return [(m, "interp1d", Interp1dStub)]
